@@ -96,7 +96,7 @@ func TestVerifC10(t *testing.T) {
 	sim.Main(t, sim.Config{
 		Prop:     "C10",
 		Scenario: c10Scenario,
-		Runs:     map[string]int{"quick": 1500, "thorough": 300000},
+		Runs:     map[string]int{"quick": 10000, "thorough": 600000},
 		Real:     []string{"RegisteredDecoys.register / markActive -> sendToDetector, RegistrationManager.Cleanup -> clearDetector (message construction, lifetimes)", "go-redis v8 client (PUBLISH over a simulated connection)", "ingest pipeline, handleNewTCPConn (activation), RemoveOldRegistrations"},
 		Stub:     []string{"Redis server (in-process RESP stub that records PUBLISH payloads)", "the Rust detector: Go port of From<&StationToDetector>, SessionDetails::new, pubsub_handle_s2d and the session table (trusted, < 100 lines next to the quoted rules; the detector cannot be built in this sandbox)", "TCP, liveness, covert hosts, ZMQ"},
 		Rule: "random: 1-5 admitted registrations over min / prefix / obfs4, both families, registrant address IPv4 / 16-byte v4-mapped / IPv6 / absent, default and registrar-overridden ports and phantoms (incl. override addresses of the wrong length), followed by connects (Update), idle periods, sweeps, Cleanup and a restart with an empty registry. " +
